@@ -945,8 +945,17 @@ TABLE["numpy.abs"] = _unary(_abs)
 TABLE["D.ar_numpy.sign"] = _unary(_sign)
 
 
+@reg("D.ar_numpy.array", "numpy.array")
+def _array(ex, st, ctx, args, kwargs):
+    """numpy.array(x): a *new* array with the same values unless copy=False is given (object identity matters for the ownership clauses)."""
+    v = _identity(ex, st, ctx, args, kwargs)
+    if kwargs.get("copy", True) is False:
+        return v
+    return _copy(ex, st, ctx, [v], {})
+
+
 @reg("D.ar_numpy.asarray", "D.ar_numpy.to_numpy", "D.ar_numpy.atleast_1d",
-     "D.astype", "numpy.asarray", "float", "D.ar_numpy.array", "D.ar_numpy.squeeze")
+     "D.astype", "numpy.asarray", "float", "D.ar_numpy.squeeze")
 def _identity(ex, st, ctx, args, kwargs):
     v = args[0]
     dt = kwargs.get("dtype")
